@@ -48,6 +48,12 @@ Theorem C08_handle_ops_forwarded : forall base o, op_paths o = [] -> bp_translat
 Proof. exact bp_handle_ops_forwarded. Qed.
 Print Assumptions C08_handle_ops_forwarded.
 
+(* Symlink (both arguments), Lstat and Readlink go through RealPath as well *)
+Theorem C08_symlink_both_names_confined : forall base oldname newname a b,
+  bp_symlink base oldname newname = Some (a, b) -> below base a /\ below base b.
+Proof. exact bp_symlink_confined. Qed.
+Print Assumptions C08_symlink_both_names_confined.
+
 (* httpDir.Open: the path handed to the source lies below the root for every request name *)
 Theorem C08_http_confined : forall root name,
   let dir := if is_empty root then s_dot else root in
